@@ -10,13 +10,13 @@ Inductive kblock := KB (damaged : bool) (es : list kentry).
 Inductive kfile := KF (num : N) (blocks : list kblock).
 Inductive kbatch := KJ (seq : N) (es : list kentry).
 
-(* cid: comparer; files in the order the harness hands them over (not sorted); journal batches in file order;
+(* cid: comparer; strict: StrictRecovery; files in the order the harness hands them over (not sorted); journal batches in file order;
    next: number of the table the replayed journal was flushed to (0 = none); queries: (key, observed digest)
    read at the final sequence number; seq_tables: sequence number recorded by recoverTable's commit; seq_end:
    the DB's sequence number when Recover returned; l0_tables / l0_final: level-0 table numbers, in version
    order, after recoverTable's commit and after the journal commit *)
 Inductive c19case :=
-| KRecover (cid : N) (files : list kfile) (journal : list kbatch) (next : N)
+| KRecover (cid : N) (strict : bool) (files : list kfile) (journal : list kbatch) (next : N)
            (queries : list (string * option string)) (seq_tables seq_end : N) (l0_tables l0_final : list N).
 
 Definition to_block (b : kblock) : fblock :=
@@ -35,14 +35,14 @@ Fixpoint nums_eqb (a b : list N) : bool :=
 
 Definition run_case (cs : c19case) : bool :=
   match cs with
-  | KRecover cid files journal next qs seq_tables seq_end l0_tables l0_final =>
+  | KRecover cid strict files journal next qs seq_tables seq_end l0_tables l0_final =>
       let c := cmp_of_id cid in
       let fs := map to_file files in
       let js := map to_batch journal in
-      let r := recover_tables kp false fs in
+      let r := recover_tables kp strict fs in
       (r_maxseq r =? seq_tables)
       && nums_eqb (map t_num (sort_l0 (r_added r))) l0_tables
-      && match recover c kp false false fs js next with
+      && match recover c kp strict false fs js next with
          | RError => false
          | ROk st seq =>
              (seq =? seq_end)
